@@ -1,3 +1,4 @@
 //! Shared generators (proptest strategies).
+pub mod flow_frag;
 pub mod soup;
 pub mod util;
